@@ -34,11 +34,12 @@ struct SpinHarness {
 	alignas(64) unsigned char store[sizeof(Lock)];
 	int in_cs = 0; long counter = 0;
 	int entries[64]; int nentries = 0;
-	SpinHarness(int t, int r) : T(t), R(r) {}
+	bool wrap = false;   // start with every byte of the lock 0xFF: the ticket counters are about to wrap around
+	SpinHarness(int t, int r, bool wrap_ = false) : T(t), R(r), wrap(wrap_) {}
 	const char *prop() { return "C12"; }
 	Lock &lock() { return *reinterpret_cast<Lock *>(store); }
 	int nthreads() { return T; }
-	void setup() { memset(store, 0, sizeof store); new(store) Lock(); in_cs = 0; counter = 0; nentries = 0; }
+	void setup() { memset(store, 0, sizeof store); new(store) Lock(); if(wrap) memset(store, 0xFF, sizeof(Lock)); in_cs = 0; counter = 0; nentries = 0; }
 	void body(int tid) {
 		for(int r = 0; r < R; r++) {
 			lock().lock();
@@ -47,7 +48,8 @@ struct SpinHarness {
 			in_cs = 1;
 			counter = counter + 1;
 			entries[nentries++] = tid;
-			if(!lock().is_locked()) vs_fail("C12", "spinlock:is_locked-false-inside", "is_locked() is false while the lock is held");
+			// (is_locked() compares the two counters with <, which is not meaningful across the wrap and not part of C12)
+			if(!wrap && !lock().is_locked()) vs_fail("C12", "spinlock:is_locked-false-inside", "is_locked() is false while the lock is held");
 			in_cs = 0;
 			hb_mark("cs-exit");
 			lock().unlock();
@@ -55,7 +57,7 @@ struct SpinHarness {
 	}
 	void finish() {
 		if(counter != (long)T * R) throw Violation{"C12", "spinlock:lost-update", "final counter " + std::to_string(counter) + " != " + std::to_string(T * R)};
-		if(lock().is_locked()) throw Violation{"C12", "spinlock:left-locked", "lock still held after every thread unlocked"};
+		if(!wrap && lock().is_locked()) throw Violation{"C12", "spinlock:left-locked", "lock still held after every thread unlocked"};
 		if(Ticket) {
 			// grants follow ticket order: the order of the fetch_adds on the ticket word
 			// (only read-modify-writes on the ticket word count: the word the first RMW of the execution touches)
@@ -77,10 +79,13 @@ static std::vector<Instance> instances(const std::string &tier) {
 	SchedOptions full; full.bound = 1000;     // no preemption bound: every interleaving
 	SchedOptions b3; b3.bound = 3;
 	SchedOptions b2; b2.bound = 2;
+	SchedOptions b5; b5.bound = 5; SchedOptions b7; b7.bound = 7;
 	using TH = SpinHarness<frg::ticket_spinlock, true>; using SH = SpinHarness<frg::simple_spinlock, false>;
 	v.push_back(sched_instance<TH>("ticket-2x1-all", full, 2, 1));
 	v.push_back(sched_instance<SH>("simple-2x1-all", full, 2, 1));
-	SchedOptions b5; b5.bound = 5; SchedOptions b7; b7.bound = 7;
+	// the same at the wrap-around of the 32-bit ticket counters (both start at 0xFFFFFFFF)
+	v.push_back(sched_instance<TH>("ticket-2x1-wrap-all", full, 2, 1, true));
+	v.push_back(sched_instance<TH>(th ? "ticket-2x2-wrap-b5" : "ticket-2x2-wrap-b3", th ? b5 : b3, 2, 2, true));
 	if(const char *e = getenv("VERIF_SPIN_BOUND")) { SchedOptions o; o.bound = atoi(e); v.push_back(sched_instance<TH>("ticket-2x2-test", o, 2, 2)); }
 	v.push_back(sched_instance<TH>(th ? "ticket-2x2-b7" : "ticket-2x2-b5", th ? b7 : b5, 2, 2));   // all interleavings would be 1.9 million schedules
 	v.push_back(sched_instance<SH>("simple-2x2-all", full, 2, 2));     // 27 380 schedules
